@@ -320,8 +320,12 @@ def _general_pair(op, a, b, version, implicit_tz):
         u, o = (a, b) if ta == 'untypedAtomic' else (b, a)
         if o[0] in NUMERIC:
             target = 'double'
-        elif o[0] in ('string', 'anyURI'):
-            target = 'string'          # primitive base type of anyURI is anyURI: comparable with string either way
+        elif o[0] == 'string':
+            target = 'string'
+        elif o[0] == 'anyURI':
+            # cast to xs:anyURI: whitespace is collapsed (whiteSpace facet of xs:anyURI)
+            u = [u[0], re.sub(r'[ \t\n\r]+', ' ', u[1]).strip(' ')]
+            target = 'anyURI'
         elif o[0] == 'QName':
             return None                # cast untypedAtomic -> QName: version dependent, not modelled
         else:
@@ -531,6 +535,7 @@ def self_test():
     assert general_compare('=', [['string', '1']], I(1)) == {'XPTY0004'}
     assert general_compare('<', [u('10')], [['string', '9']]) == {True}          # untyped vs string: string order
     assert general_compare('<', [u('10')], I(9)) == {False}
+    assert general_compare('=', [u(' 1 ')], [['anyURI', '1']]) == {True} and general_compare('=', [u(' 1 ')], [['string', '1']]) == {False}
     # XPath 1.0 3.4
     assert compare10('=', ('string', '1.0'), ('number', 1.0)) and not compare10('=', ('string', '1.0'), ('string', '1'))
     assert compare10('=', ('boolean', True), ('string', 'false')) and compare10('<', ('string', '2'), ('string', '10'))
